@@ -109,15 +109,17 @@ def single_signal(c):
     sig = c.real('signal')
     uni = UniverseStub(c)
     am = SingleSignalAlphaModel(uni, signal=sig)
-    t = c.time('t')
+    t0, t = c.time('t_earlier_call'), c.time('t')
+    am(t0)                                   # an earlier call must not influence a later one
+    del uni.queries[:]
     res = am(t)
     c.ob('keys-are-universe-at-dt', IFF(HAS(res, w), uni.member(w, t)))
     c.ob('every-weight-is-the-signal', IMPLIES(HAS(res, w), EQ(VAL(res, w), sig)))
-    c.ob('universe-queried-at-dt-only', AND(*[EQ(q, t) for q in uni.queries]), props=['C19', 'C07'])
+    c.ob('universe-queried-at-dt-only', AND(len(uni.queries) >= 1, *[EQ(q, t) for q in uni.queries]), props=['C19', 'C07'])
 
 
-canary('single-signal weights only the first universe query', SingleSignalAlphaModel, '__call__',
-       'assets = self.universe.get_assets(dt)', 'assets = self.universe.get_assets(dt - dt + dt) if False else self.universe.get_assets(self.universe.__class__ and dt.__class__ and getattr(self, "_t0", None) or dt)')(single_signal)
+canary('single-signal alpha caches the universe of its first call', SingleSignalAlphaModel, '__call__',
+       'assets = self.universe.get_assets(dt)', 'assets = getattr(self, "_assets", None) or self.universe.get_assets(dt); self._assets = assets')(single_signal)
 
 
 @harness('FixedSignalsAlphaModel.__call__', props=['C19', 'C08'], layer='L0',
